@@ -786,6 +786,105 @@ Proof.
 Qed.
 
 (* ------------------------------------------------------------------------------------------ *)
+(* Pointset_Powerset::concatenate_assign(y) (Pointset_Powerset_templates.hh:103-141), with its
+   "Hurry up!" branch: both operands are omega-reduced; for every disjunct xi of x the products
+   xi . yj are pushed; after each xi, when the abandon flag is found raised and disjuncts of x remain
+   (and y is not empty), the REMAINING disjuncts of x are joined into x_ph, ALL the disjuncts of y into
+   y_ph, the single product x_ph . y_ph is added with add_disjunct (which clears `reduced') and the
+   function returns.  [conc] is the base-level concatenate_assign; [ubx], [uby] the upper bounds on the
+   two operand spaces.  new_x starts as an EMPTY powerset, whose flag is set. *)
+Section Concat.
+Variables (conc ubx uby : D -> D -> D).
+
+Fixpoint concat_loop (hurry : nat -> bool) (xs ys acc : list D) : list D * bool :=
+  match xs with
+  | [] => (acc, true)
+  | x :: rest =>
+      let acc' := acc ++ map (conc x) ys in
+      match rest, ys with
+      | r0 :: rest', y0 :: ys' =>
+          if hurry (length rest) then (acc' ++ [conc (fold_left ubx rest' r0) (fold_left uby ys' y0)], false)
+          else concat_loop hurry rest ys acc'
+      | _, _ => concat_loop hurry rest ys acc'
+      end
+  end.
+
+Definition concatenate_ps (hurry : nat -> bool) (y s : ps) : ps :=
+  let s' := omega_reduce hurry s in
+  let y' := omega_reduce hurry y in
+  let (l, fl) := concat_loop hurry (seq s') (seq y') [] in mk_ps l fl.
+
+Variable Rel : P -> P -> P -> Prop.    (* q is the concatenation of p1 and p2 *)
+Hypothesis conc_sound : forall a b p1 p2 q, den a p1 -> den b p2 -> Rel p1 p2 q -> den (conc a b) q.
+Hypothesis ubx_upper : forall a b p, den a p \/ den b p -> den (ubx a b) p.
+Hypothesis uby_upper : forall a b p, den a p \/ den b p -> den (uby a b) p.
+
+Lemma fold_upper (u : D -> D -> D) (Hu : forall a b p, den a p \/ den b p -> den (u a b) p) post :
+  forall sink p, den_l (sink :: post) p -> den (fold_left u post sink) p.
+Proof.
+  induction post as [|y post IH]; intros sink p H; cbn [fold_left].
+  - apply den_l_cons in H. destruct H as [H|H]; [exact H|now apply den_l_nil in H].
+  - apply IH. apply den_l_cons. apply den_l_cons in H. destruct H as [H|H].
+    + left. apply Hu. now left.
+    + apply den_l_cons in H. destruct H as [H|H]; [left; apply Hu; now right|now right].
+Qed.
+
+(* whatever the oracle does, no point of the concatenation is lost *)
+Lemma concat_loop_superset hurry ys : forall xs acc q,
+  den_l acc q \/ (exists p1 p2, den_l xs p1 /\ den_l ys p2 /\ Rel p1 p2 q) ->
+  den_l (fst (concat_loop hurry xs ys acc)) q.
+Proof.
+  induction xs as [|x rest IH]; intros acc q H; cbn [concat_loop].
+  - cbn [fst]. destruct H as [H|[p1 [p2 [H _]]]]; [exact H|now apply den_l_nil in H].
+  - set (acc' := acc ++ map (conc x) ys).
+    assert (A : den_l acc' q \/ (exists p1 p2, den_l rest p1 /\ den_l ys p2 /\ Rel p1 p2 q)).
+    { destruct H as [H|[p1 [p2 [H1 [H2 H3]]]]]; [left; apply den_l_app; now left|].
+      apply den_l_cons in H1. destruct H1 as [H1|H1]; [|right; exists p1, p2; auto].
+      left. apply den_l_app. right. destruct H2 as [b [Hb H2]]. exists (conc x b). split; [now apply in_map|].
+      eapply conc_sound; eauto. }
+    destruct rest as [|r0 rest']; [now apply IH|]. destruct ys as [|y0 ys']; [now apply IH|].
+    destruct (hurry (length (r0 :: rest'))); [|now apply IH]. cbn [fst].
+    apply den_l_app. destruct A as [A|[p1 [p2 [H1 [H2 H3]]]]]; [now left|right].
+    apply den_l_cons. left. eapply conc_sound; [| |exact H3]; apply fold_upper; auto.
+Qed.
+
+Theorem concatenate_never_loses hurry y s q :
+  (exists p1 p2, den_ps s p1 /\ den_ps y p2 /\ Rel p1 p2 q) -> den_ps (concatenate_ps hurry y s) q.
+Proof.
+  intros [p1 [p2 [H1 [H2 H3]]]]. unfold concatenate_ps.
+  pose proof (concat_loop_superset hurry (seq (omega_reduce hurry y)) (seq (omega_reduce hurry s)) [] q) as K.
+  destruct (concat_loop hurry (seq (omega_reduce hurry s)) (seq (omega_reduce hurry y)) []) as [l fl]. cbn [fst] in K.
+  unfold den_ps. cbn [seq]. apply K. right. exists p1, p2. split; [|split; [|exact H3]].
+  - now apply omega_reduce_superset.
+  - now apply omega_reduce_superset.
+Qed.
+
+(* without abandonment the result is exactly the set of concatenations, and the flag stays set *)
+Hypothesis conc_exact : forall a b q, den (conc a b) q -> exists p1 p2, den a p1 /\ den b p2 /\ Rel p1 p2 q.
+
+Lemma concat_loop_never ys : forall xs acc,
+  concat_loop never xs ys acc = (acc ++ flat_map (fun x => map (conc x) ys) xs, true).
+Proof.
+  induction xs as [|x rest IH]; intros acc; cbn [concat_loop flat_map]; [now rewrite app_nil_r|].
+  rewrite app_assoc. destruct rest as [|r0 rest']; [apply IH|]. destruct ys as [|y0 ys']; [apply IH|].
+  unfold never at 1. apply IH.
+Qed.
+
+Theorem concatenate_exact y s q :
+  den_ps (concatenate_ps never y s) q <-> exists p1 p2, den_ps s p1 /\ den_ps y p2 /\ Rel p1 p2 q.
+Proof.
+  split; [|apply concatenate_never_loses].
+  unfold concatenate_ps. rewrite concat_loop_never. unfold den_ps at 1. cbn [seq app].
+  intros H. apply den_l_flat_map in H. destruct H as [x [Hx H]]. apply (proj1 (den_l_map _ _ _)) in H.
+  destruct H as [b [Hb H]]. destruct (conc_exact _ _ _ H) as [p1 [p2 [H1 [H2 H3]]]].
+  exists p1, p2. split; [|split; [|exact H3]]; apply omega_reduce_union; [exists x|exists b]; now split.
+Qed.
+
+Theorem concatenate_flag y s : reduced (concatenate_ps never y s) = true.
+Proof. unfold concatenate_ps. now rewrite concat_loop_never. Qed.
+End Concat.
+
+(* ------------------------------------------------------------------------------------------ *)
 (* Pointset_Powerset::strictly_contains(y): BOTH operands are omega-reduced (the argument too since
    /repo 7722182), then every disjunct of y must be strictly contained in some disjunct of x.
    [sc a b] is the base-level a.strictly_contains(b). *)
